@@ -30,7 +30,7 @@ def devOf (a b : List Float) : Float := (List.zipWith (fun a b => (a - b).abs / 
     → `<id> depth n n_alpha | v n' s' adopt | … # alpha/n_alpha pos…`; INDET when the integer outputs change under a
     rounding-sized perturbation of the inputs (a slice / U-turn / divergence / selection comparison sits on a knife
     edge) or the trajectory is unstable. -/
-def c03 (args : List String) : String :=
+def c03core (withStat : Bool) (args : List String) : String :=
   match args with
   | id :: ty :: eps :: ";" :: rest =>
     match numsOf ty [eps], splitAt' ";" rest with
@@ -52,12 +52,18 @@ def c03 (args : List String) : String :=
                 && (st.alpha - a.alpha).abs ≤ 0.1 * tol * (1 + st.alpha.abs) && (st.alpha - b.alpha).abs ≤ 0.1 * tol * (1 + st.alpha.abs)
             | _, _ => false
           if stable then
-            id ++ " " ++ fmtLoop st ++ " # " ++ tokD (st.alpha / Float.ofNat st.nalpha) ++ " " ++ join (st.pos.map tokD)
+            id ++ " " ++ fmtLoop st ++ " # " ++ (if withStat then tokD (st.alpha / Float.ofNat st.nalpha) ++ " " else "") ++ join (st.pos.map tokD)
           else id ++ " INDET"
       | _, _, _, _, _, _, _ => id ++ " bad-op"
     | _, _ => id ++ " bad-op"
   | id :: _ => id ++ " bad-op"
   | _ => "bad-op"
+
+def c03 (args : List String) : String := c03core true args
+/-- like `c03` without the acceptance statistic (C14: on out-of-support points the harness targets' autodiff gradient
+    (0 / NaN through `mask_fill`) differs from the closed-form continuation the driver uses, which changes a NaN or -inf joint
+    into the other and hence `min(1, exp(..))` from 1 to 0; positions and tree structure are unaffected) -/
+def c03x (args : List String) : String := c03core false args
 
 /-- `c03t <id> <ty> <eps> <v> <j> ; target ; pos ; mom ; logu joint0 ; sel…`
     → `<id> n' s' n_alpha # alpha prime… minus… plus…` (direct `build_tree` call) -/
